@@ -5,6 +5,7 @@ import (
 	crand "crypto/rand"
 	"crypto/sha512"
 	"encoding/hex"
+	"errors"
 	"fmt"
 	"io"
 	"math/rand"
@@ -293,6 +294,21 @@ func C05(c *core.Ctx) {
 		if ping.SharedKeyHexDigest != sha512hex(salt, hc.chost, hc.nonce, hc.key) {
 			c.Violation("judge-go", "c05-newping", "NewPing digest is not SHA-512-hex(salt+hostname+nonce+key)", map[string]string{"key": hx(hc.key)})
 		}
+		// the PING carrying a user name and password: the same digest and salt, the credentials as given, and a
+		// server validates it like any other
+		if pa, err := protocol.NewPingWithAuth(string(hc.chost), hc.key, salt, hc.nonce, "user-"+string(hc.chost), "pass word"); err != nil || pa == nil {
+			c.Violation("judge-go", "c05-newping", fmt.Sprintf("NewPingWithAuth failed: %v", err), nil)
+		} else {
+			wire, _ := pa.MarshalMsg(nil)
+			var back protocol.Ping
+			_, uerr := back.UnmarshalMsg(wire)
+			c.Eval()
+			if pa.SharedKeyHexDigest != ping.SharedKeyHexDigest || !bytes.Equal(pa.SharedKeySalt, salt) || pa.ClientHostname != string(hc.chost) || pa.Username != "user-"+string(hc.chost) || pa.Password != "pass word" ||
+				uerr != nil || back.Username != pa.Username || back.Password != pa.Password || back.SharedKeyHexDigest != pa.SharedKeyHexDigest ||
+				protocol.ValidatePingDigest(pa, hc.key, hc.nonce) != nil {
+				c.Violation("judge-go", "c05-newping", "NewPingWithAuth: digest, salt, hostname or credentials are not the ones given / the formula's, or the PING does not survive the wire", map[string]string{"key": hx(hc.key), "salt": hx(salt)})
+			}
+		}
 		for k := 0; k < 4; k++ {
 			p2 := *ping
 			key2, nonce2 := hc.key, hc.nonce
@@ -380,6 +396,67 @@ func C05(c *core.Ctx) {
 func c05SameClient(c *core.Ctx, r *rand.Rand, hc hsCase) {
 	for _, first := range []string{"honest", "interrupted", "wrong-digest", "auth-false", "garbage-pong"} {
 		c05SameClientVariant(c, r, hc, first)
+	}
+	c05EntropyOutage(c, hc)
+}
+
+// outageRand: a random source that fails (optionally after delivering some bytes of the request)
+type outageRand struct{ partial int }
+
+func (o *outageRand) Read(b []byte) (int, error) {
+	n := o.partial
+	if n > len(b) {
+		n = len(b)
+	}
+	for i := 0; i < n; i++ {
+		b[i] = 0xa5
+	}
+	return n, errors.New("fake: random source unavailable")
+}
+
+// c05EntropyOutage: while the random source fails no fresh salt can be had: two handshakes during the outage must
+// not put the same salt on the wire (the replay clause rests on salts never repeating) -- refusing to handshake is
+// the answer the unchanged code gives.
+func c05EntropyOutage(c *core.Ctx, hc hsCase) {
+	if len(hc.key) == 0 {
+		return
+	}
+	old := crand.Reader
+	defer func() { crand.Reader = old }()
+	for _, partial := range []int{0, 7} {
+		crand.Reader = &outageRand{partial: partial}
+		helo := mustMarshal(&protocol.Helo{MessageType: "HELO", Options: &protocol.HeloOpts{Nonce: hc.nonce, Auth: []byte{}, Keepalive: true}})
+		var salts [][]byte
+		entered := false
+		for k := 0; k < 2; k++ {
+			f := &fakes.Factory{}
+			f.Setup = func(cn *fakes.Conn) { cn.Script = []fakes.ReadStep{{Data: helo}} }
+			cl := client.New(client.ConnectionOptions{Factory: f, AuthInfo: client.AuthInfo{SharedKey: hc.key}})
+			cl.Hostname = string(hc.chost)
+			if err := cl.Connect(); err != nil {
+				continue
+			}
+			_ = cl.Handshake()
+			entered = entered || cl.TransportPhase()
+			if conns := f.All(); len(conns) > 0 {
+				var ping protocol.Ping
+				if w := conns[0].Accepted(); len(w) > 0 {
+					if _, err := ping.UnmarshalMsg(w); err == nil {
+						salts = append(salts, append([]byte{}, ping.SharedKeySalt...))
+					}
+				}
+			}
+			_ = cl.Disconnect()
+		}
+		c.Eval()
+		c.Hist("two handshakes while the random source fails")
+		if len(salts) == 2 && bytes.Equal(salts[0], salts[1]) {
+			c.Violation("judge-go", "c05-salt-not-fresh", fmt.Sprintf("two handshakes during an outage of the random source (it delivers %d bytes and an error) put the same salt %x on the wire", partial, salts[0]),
+				map[string]interface{}{"partial_bytes": partial, "salt": hx(salts[0])})
+		}
+		if entered {
+			c.Violation("judge-go", "c05-salt-not-fresh", "transport phase entered although no PONG was delivered", nil)
+		}
 	}
 }
 
